@@ -79,6 +79,9 @@ def obs_op(c, op=None):
     """repeat one compile/run call of a history on a fresh template in this pristine process"""
     kw = dict(op['kw'])
     kw.setdefault('verbose', False)
+    if op.get('input'):
+        from .world import _input_array
+        kw['inputs'] = {op['input']['target']: _input_array(op['input'])}
     try:
         if op['op'] == 'run':
             T, dt, outputs = kw.pop('T'), kw.pop('dt'), kw.pop('outputs')
